@@ -73,7 +73,9 @@ pub fn gen_requests(rng: &mut Rng, n: u64, out: &mut Out, id: &str) -> Vec<Strin
         }
         if fault_session {
             // make the n-th ptrace request of one kind fail (EIO) during ONE further command, then stop the session
-            let kind = *rng.pick(&["POKE", "POKE", "POKE", "PEEK", "STEP", "CONT", "SETREGS"]);
+            // (PTRACE_CONT / PTRACE_SINGLESTEP are not failed: the kernel never refuses them for a live stopped tracee, and a
+            // debugger that goes on to wait for a tracee that was never resumed blocks forever — an artefact, not a finding)
+            let kind = *rng.pick(&["POKE", "POKE", "POKE", "PEEK", "SETREGS"]);
             let n = rng.range(1, 12);
             req.push(format!("{id} fault {kind} {n}"));
             req.push(match rng.below(5) { 0 => format!("{id} continue"), 1 => format!("{id} stepi"), 2 => format!("{id} step 0"), 3 => format!("{id} finish - 0"), _ => format!("{id} next - 0") });
@@ -177,7 +179,9 @@ pub fn session(id: &str, lines: &[String], emit: &mut dyn FnMut(String)) {
                     if got != want {
                         let extra: Vec<u64> = got.difference(&want).copied().collect();
                         let missing: Vec<u64> = want.difference(&got).copied().collect();
-                        let key = if !extra.is_empty() { "patches-left-behind-when-a-command-fails-midway" } else { "breakpoint-lost-when-a-command-fails-midway" };
+                        let cmd = t.get(1).copied().unwrap_or("?");
+                        let key = if !extra.is_empty() { format!("temporaries-left-behind-when-{cmd}-fails-midway") } else { format!("breakpoint-lost-when-{cmd}-fails-midway") };
+                        let key = key.as_str();
                         oracle(emit, key, format!("`{line}` with an injected ptrace failure answered `{ans}`: left-over INT3 at {:x?}, breakpoints no longer patched {:x?}", extra, missing));
                     }
                 }
@@ -209,6 +213,9 @@ pub fn session(id: &str, lines: &[String], emit: &mut dyn FnMut(String)) {
         }
         emit(format!("{req}\t{ans} p={}", obs.pokes));
     }
+    // after an injected ptrace failure only the text is judged (above): the kernel-level state of the debuggee is whatever the
+    // refused request left (e.g. a pc that was not rewound), so "computes what it computes natively" is not owed any more
+    if after_fault { unsafe { libc::_exit(0) } }
     // ---- oracle: run the program to its end with all user breakpoints removed: output and exit status must be the native ones
     if started && !exited {
         for a in bset.clone() { let _ = live.dbg.remove_breakpoint(Address::Relocated(RelocatedAddress::from(base + a))); }
@@ -243,7 +250,14 @@ pub fn exec(id: &'static str, req: &[String], out: &mut Out, tmpdir: &std::path:
             } else if let Some((r, a)) = l.split_once('\t') { pairs.push((r.to_string(), a.to_string())); }
         }
         out.oracle_evals += pairs.len() as u64;
-        if how != "ok" {
+        // a worker that blocks INSIDE the command that ran under the injected failure: not observable, counted, not a verdict
+        let fault_at = s.iter().position(|l| l.split(' ').nth(1) == Some("fault"));
+        let hung_in_fault = how == "timeout" && fault_at.map_or(false, |f| pairs.len() == f + 1);
+        if hung_in_fault {
+            out.count("fault.hung-inside-faulted-command", 1);
+            let cmd: Vec<&str> = s[fault_at.unwrap() + 1].split(' ').collect();
+            pairs.push((format!("{} faulted {}", cmd[0], cmd[1..].join(" ")), "faulted".into()));
+        } else if how != "ok" {
             out.oracle_fail("debugger-crashed-or-hung", &format!("worker ended with {how} after {} of {} commands", pairs.len(), s.len()),
                 json!({"session": s.iter().map(|l| short(l)).collect::<Vec<_>>()}));
         }
